@@ -370,6 +370,10 @@ func stageC02(dir string, seed uint64, tier string) error {
 	for i := 0; i < nBad; i++ {
 		add(w, genGeneral(r, tier, true))
 	}
+	// after the older streams, so that their cases stay what they were for a given seed
+	for i := 0; i < nGen/4; i++ {
+		add(w, genSharedProvide(r, tier))
+	}
 	stat(w)
 	return w.Flush()
 }
